@@ -1,13 +1,42 @@
 import Gossamer.Base.Proto
 import Gossamer.Model.C29
-open Gossamer Gossamer.C29 Gossamer.HashRef
+import Gossamer.Lib.SigRef
+open Gossamer Gossamer.C29 Gossamer.HashRef Gossamer.SigRef
 
-/- line: `h <hex msg>` → `b8 b128 b256 keccak256 twox64 twox128 twox256 sha256` (hex, space separated) -/
+/- lines:
+   `h <msg>`                      → `b8 b128 b256 keccak256 twox64 twox128 twox256 sha256`
+   `ed <pk> <msg> <sig>`          → ok|fail   model = Go stdlib rules, spec = ZIP-215 rules
+   `ecv <pub> <msg> <sig64>`      → ok|fail
+   `ecr <msg> <sig65>`            → 04‖x‖y | err
+   `ecrc <msg> <sig65>`           → 02/03‖x | err
+   `sr <pk> <msg> <sig> <kind>`   → ok|fail by construction (no Lean reference for schnorrkel) -/
+def verdict (b : Bool) : String := if b then "ok" else "fail"
+
 def step (line : String) : String :=
   match words line with
   | ["h", x] => match ofHex? x with
     | some m => s!"{hex (blake2b8 m)} {hex (blake2b128 m)} {hex (blake2bHash m)} {hex (keccak256 m)} {hex (twox64 m)} {hex (twox128 m)} {hex (twox256 m)} {hex (sha256 m)}"
     | none => "bad-op"
+  | ["ed", pk, m, sg] => match ofHex? pk, ofHex? m, ofHex? sg with
+    | some pk, some m, some sg =>
+      let go := ed25519VerifyGo pk m sg
+      let zip := ed25519VerifyZip215 pk m sg
+      if go == zip then verdict go else s!"{verdict go}\tspec={verdict zip}\tkf=ed25519-not-zip215"
+    | _, _, _ => "bad-op"
+  | ["ecv", pb, m, sg] => match ofHex? pb, ofHex? m, ofHex? sg with
+    | some pb, some m, some sg => verdict (ecdsaVerify pb m sg)
+    | _, _, _ => "bad-op"
+  | ["ecr", m, sg] => match ofHex? m, ofHex? sg with
+    | some m, some sg => match ecdsaRecover m sg with
+      | some q => "04" ++ toHex q
+      | none => "err"
+    | _, _ => "bad-op"
+  | ["ecrc", m, sg] => match ofHex? m, ofHex? sg with
+    | some m, some sg => match ecdsaRecover m sg with
+      | some q => (if natOfBE (q.drop 32) % 2 == 1 then "03" else "02") ++ toHex (q.take 32)
+      | none => "err"
+    | _, _ => "bad-op"
+  | ["sr", _, _, _, kind] => if kind == "honest" then "ok" else "fail"
   | _ => "bad-op"
 
 def main : IO Unit := runDriver step
